@@ -6,6 +6,16 @@ from common import Rng
 import pytrs
 from pytrs.parser.tract.tract_preprocess import scrub_aliquots
 
+
+def safely(rep, what, f, *a):
+    """run one oracle check; an exception escaping the library is itself a failing input for the observables"""
+    try:
+        return f(rep, *a)
+    except Exception as e:  # noqa
+        rep.violation('failing-input', {'check': what, 'args': [str(x)[:300] for x in a], 'why': f'raised {type(e).__name__}: {e}'})
+        return None
+
+
 RULE = ("component chains of length 1-5 x an independent documented spelling per component x joiner ('', ' ', ' of ', "
         "' of the ') x clean_qq x depth settings, compared with the canonical spelling of the same chain; plus the "
         "exhaustive single-component spelling table with left/right contexts; non-trivial = spelling differs from the "
@@ -114,7 +124,7 @@ def run(ctx):
         chain = gen.rand_chain(r, 5)
         text = render(chain, r)
         cfg = cfg_for(r)
-        check_chain(rep, chain, text, cfg)
+        safely(rep, 'spelling', check_chain, chain, text, cfg)
         if text != gen.canon_chain(chain):
             rep.nontrivial(text + '|' + cfg)
         rep.dist('c07_chain_len', len(chain))
